@@ -64,6 +64,8 @@ def canon_tag(n):
             n = dict(n)
             n["mode"] = "explicit"
             n["was_implicit_over"] = kids[0]["t"]
+            if kids[0].get("nexts") is not None:
+                n["nexts"] = kids[0]["nexts"]       # the element writers of the re-tagged SET / SET OF (for the sink rule)
             n["c"] = kids[0]["c"]
     return n
 
